@@ -2,7 +2,7 @@ claim(
     "C12",
     "exhaustive differential test of stock predicates against an arithmetic reference + differential stream monitor (constrained vs unconstrained selector) on generated loop programs",
     "Part A enumerates every integer argument combination in a bounded box and compares each stock predicate with the arithmetic definition in the property; Part B runs generated nested-loop programs under constrained selectors and checks the delivered stream equals the unconstrained stream filtered by the reference predicate, and that overrides apply under the same condition. Held-on-observed only.",
-    "Trusts: CPython integer arithmetic; that the unconstrained selector's stream is correct (that is C02/C03's job); throttle is compared with a harness-side model of the stateful predicate (RefThrottle), not with ptera's own class.",
+    "Trusts: CPython integer arithmetic; that the unconstrained selector's stream is correct (that is C02/C03's job); throttle is compared with a harness-side model of the stateful predicate (RefThrottle), not with ptera's own class; part L (same capture name at two levels) routes the inner-level condition to the known-finding stream condition-on-inner-capture-evaluated-on-same-named-outer-capture.",
 )
 claim(
     "C15",
